@@ -1,6 +1,6 @@
 SPECIFICATION Spec
 CONSTANTS
-  OpsU = {"get", "put", "delete"}
+  OpsU = {"get", "put"}
   Sliced = TRUE
   TabLen = 2
   CheckTables = TRUE
